@@ -38,6 +38,7 @@ DECIDING = {
     "repeat_lookups_of_generated": "pair looked up again after generation (PM-singleton)",
     "contexts_left": "teardown log compared at context exit",
     "visible_set_comparisons": "visible-set comparisons",
+    "race_add_during_generation": "add_resource executed while an async multi-type factory of the same name was suspended",
 }
 ASSUMPTIONS = ["when several reasons for failure apply to one call, any of the corresponding exception classes is accepted"]
 
@@ -49,7 +50,7 @@ def plan(tier: str) -> dict[str, Any]:
 
 def gen_case(idx: int, seed: int, tier: str) -> Any:
     return {"seed": f"{seed}:{idx}", "want_sample": idx % 97 == 0, "over": {"p_invalid": 0.12, "p_bad_name": 0.08},
-            "weights": {"construct": 8, "enter": 4, "leave": 4, "add_resource": 45, "add_factory": 20, "lookup": 30, "race": 0}}
+            "weights": {"construct": 8, "enter": 4, "leave": 4, "add_resource": 45, "add_factory": 20, "lookup": 28, "race": 6}}
 
 
 def run_case(case: Any) -> dict[str, Any]:
